@@ -74,7 +74,7 @@ ASSUMPTIONS = [
     'tolerances: 1 ulp on the rate bound, 2 microseconds on lateness (documented float rounding of the implementation\'s own arithmetic)',
 ]
 SHARDS = {'quick': 1, 'thorough': 16}
-TIMEOUT = {'quick': 300, 'thorough': 900}
+TIMEOUT = {'quick': 900, 'thorough': 900}
 
 
 AB_FLOOR = {
